@@ -119,7 +119,7 @@ func (encryptor *QueryDataEncryptor) encryptInsertQuery(ctx context.Context, ins
 		onDupChanged, err := encryptor.encryptUpdateExpressions(
 			ctx,
 			sqlparser.UpdateExprs(insert.OnDup),
-			insert.Table,
+			onDupTables,
 			base.NewAliasToTableMapFromTables(onDupTables),
 			bindPlaceholders)
 		if err != nil {
@@ -168,24 +168,32 @@ func (encryptor *QueryDataEncryptor) hasTablesToEncrypt(tables []*base.AliasedTa
 	return false
 }
 
-// encryptUpdateExpressions try to encrypt all supported exprs. Use firstTable if column has not explicit table name because it's implicitly used in DBMSs
-func (encryptor *QueryDataEncryptor) encryptUpdateExpressions(ctx context.Context, exprs sqlparser.UpdateExprs, firstTable sqlparser.TableName, qualifierMap base.AliasToTableMap, bindPlaceholders map[int]config.ColumnEncryptionSetting) (bool, error) {
-	var schema config.TableSchema
+// updateTarget finds the table schema (nil if not configured) and the column name, spelled as the config spells
+// it, which the target of a SET / ON DUPLICATE KEY UPDATE assignment refers to.
+// A qualified target is looked up among the tables and aliases of the statement in the spelling of the config
+// (TableIdent.String() keeps case and quotes: `UPDATE t AS X SET X.col = 'v'`, `UPDATE T SET T.col = 'v'` found no
+// schema and the value reached the database in the clear).
+// A target without qualifier is a column of the first table.
+func (encryptor *QueryDataEncryptor) updateTarget(name *sqlparser.ColName, tables []*base.AliasedTableName, qualifierMap base.AliasToTableMap) (config.TableSchema, string) {
+	columnName := name.Name.ValueForConfig()
+	if !name.Qualifier.IsEmpty() {
+		tableName, ok := qualifierMap[name.Qualifier.Name.ValueForConfig()]
+		if !ok {
+			return nil, columnName
+		}
+		return encryptor.schemaStore.GetTableSchema(tableName), columnName
+	}
+	return encryptor.schemaStore.GetTableSchema(tables[0].TableName.Name.ValueForConfig()), columnName
+}
+
+// encryptUpdateExpressions try to encrypt all supported exprs (see updateTarget for the table a column belongs to)
+func (encryptor *QueryDataEncryptor) encryptUpdateExpressions(ctx context.Context, exprs sqlparser.UpdateExprs, tables []*base.AliasedTableName, qualifierMap base.AliasToTableMap, bindPlaceholders map[int]config.ColumnEncryptionSetting) (bool, error) {
 	changed := false
 	for _, expr := range exprs {
-		// recognize table name of column
-		if expr.Name.Qualifier.IsEmpty() {
-			schema = encryptor.schemaStore.GetTableSchema(firstTable.Name.ValueForConfig())
-		} else {
-			// looked up in the spelling of the config, like the keys of the map (TableIdent.String() keeps case
-			// and quotes: `UPDATE t AS X SET X.col = 'v'`, `UPDATE T SET T.col = 'v'` found no schema)
-			tableName := qualifierMap[expr.Name.Qualifier.Name.ValueForConfig()]
-			schema = encryptor.schemaStore.GetTableSchema(tableName)
-		}
+		schema, columnName := encryptor.updateTarget(expr.Name, tables, qualifierMap)
 		if schema == nil {
 			continue
 		}
-		columnName := expr.Name.Name.ValueForConfig()
 		if changedExpr, err := encryptor.encryptExpression(ctx, expr.Expr, schema, columnName, bindPlaceholders); err != nil {
 			logrus.WithField(logging.FieldKeyEventCode, logging.EventCodeErrorEncryptorCantEncryptExpression).WithError(err).Errorln("Can't update expression with encrypted sql value")
 			return changed, err
@@ -214,7 +222,6 @@ func (encryptor *QueryDataEncryptor) encryptUpdateQuery(ctx context.Context, upd
 	}
 
 	qualifierMap := base.NewAliasToTableMapFromTables(tables)
-	firstTable := tables[0].TableName
 
 	// MySQL/MariaDB don`t support returning after update statements
 	// Postgres doest but expect only one table in tables expression, but also can have more tables in FROM statement
@@ -222,7 +229,7 @@ func (encryptor *QueryDataEncryptor) encryptUpdateQuery(ctx context.Context, upd
 		return false, encryptor.onReturning(ctx, update.Returning, fromTables)
 	}
 
-	return encryptor.encryptUpdateExpressions(ctx, update.Exprs, firstTable, qualifierMap, bindPlaceholders)
+	return encryptor.encryptUpdateExpressions(ctx, update.Exprs, tables, qualifierMap, bindPlaceholders)
 }
 
 // OnColumn return new encryption setting context if info exist, otherwise column data and passed context will be returned
@@ -432,7 +439,9 @@ func (encryptor *QueryDataEncryptor) getInsertPlaceholders(ctx context.Context, 
 	if len(insert.Columns) > 0 {
 		columns = make([]string, len(insert.Columns))
 		for i, column := range insert.Columns {
-			columns[i] = column.String()
+			// in the spelling of the config, like encryptInsertQuery (column.String() keeps the case:
+			// the parameter of `INSERT INTO t (Col) VALUES (?)` reached the database in the clear)
+			columns[i] = column.ValueForConfig()
 		}
 	} else if cols := schema.Columns(); len(cols) > 0 {
 		columns = cols
@@ -538,22 +547,27 @@ func (encryptor *QueryDataEncryptor) encryptInsertValues(ctx context.Context, in
 func (encryptor *QueryDataEncryptor) encryptUpdateValues(ctx context.Context, update *sqlparser.Update, values []decryptor.BoundValue) ([]decryptor.BoundValue, bool, error) {
 	logrus.Debugln("QueryDataEncryptor.encryptUpdateValues")
 	// Get all tables involved in UPDATE with their aliases.
-	// Column names in the queries might refer to the updated table in a different manner:
+	// Column names in the queries might refer to the updated tables in a different manner:
 	//
-	//     UPDATE table AS tbl SET tbl.col1 = $1, table.col2 = $2, `tbl2.col3` = $3 FROM tbl2 ...
+	//     UPDATE table AS tbl SET tbl.col1 = $1, table.col2 = $2 FROM tbl2 ...
+	//     UPDATE table JOIN tbl2 ON ... SET tbl2.col3 = ?, col1 = ?
 	//
-	// and we need to take all of that into account. But we're interested only in the first table.
-	// If the updated table does not have a schema entry, there is nothing to encrypt here.
+	// The column a SET target refers to is found exactly as for the textual form (encryptUpdateQuery, updateTarget).
+	// Looking only at the first table and ignoring qualifiers and the case of the names left parameters of
+	// encrypted columns in the clear (`SET Col = ?`, `UPDATE t1 JOIN t2 .. SET t2.col = ?`) and encrypted
+	// parameters of columns of other tables.
 	tables := GetTablesWithAliases(update.TableExprs)
-	//tableName := tables[0].TableName.Name.String()
-	tableName := tables[0].TableName.Name.ValueForConfig()
-	schema := encryptor.schemaStore.GetTableSchema(tableName)
-	if schema == nil {
-		logrus.WithField("table", tableName).Debugln("No encryption schema")
+	tables = append(tables, GetTablesWithAliases(update.From)...)
+	// If none of the tables has a schema entry (or there is no plain table at all), there is nothing to encrypt here.
+	if len(tables) == 0 || !encryptor.hasTablesToEncrypt(tables) {
+		logrus.Debugln("No encryption schema")
 		return values, false, nil
 	}
+	qualifierMap := base.NewAliasToTableMapFromTables(tables)
 
+	// placeholder -> "table.column" (the mapping must be unique) and placeholder -> setting of an encrypted column
 	placeholders := make(map[int]string, len(values))
+	settings := make(map[int]config.ColumnEncryptionSetting, len(values))
 
 	// We can only process simple queries of the form
 	//
@@ -565,19 +579,29 @@ func (encryptor *QueryDataEncryptor) encryptUpdateValues(ctx context.Context, up
 	//
 	// Walk through SET clauses to find out which placeholders stand for which columns.
 	for _, expr := range update.Exprs {
-		columnName := expr.Name.Name.String()
-		switch value := expr.Expr.(type) {
-		case *sqlparser.SQLVal:
-			err := encryptor.updatePlaceholderMap(len(values), placeholders, value, columnName)
-			if err != nil {
-				return values, false, err
-			}
+		value, ok := expr.Expr.(*sqlparser.SQLVal)
+		if !ok {
+			continue
+		}
+		schema, columnName := encryptor.updateTarget(expr.Name, tables, qualifierMap)
+		target := "." + columnName
+		if schema != nil {
+			target = schema.Name() + target
+		}
+		if err := encryptor.updatePlaceholderMap(len(values), placeholders, value, target); err != nil {
+			return values, false, err
+		}
+		if schema == nil || !schema.NeedToEncrypt(columnName) {
+			continue
+		}
+		if index, err := ParsePlaceholderIndex(value); err == nil {
+			settings[index] = schema.GetColumnEncryptionSettings(columnName)
 		}
 	}
 
 	// Now that we know the placeholder mapping,
 	// encrypt the values set into encrypted columns.
-	return encryptor.encryptValuesWithPlaceholders(ctx, values, placeholders, schema)
+	return encryptor.encryptValuesWithSettings(ctx, values, settings)
 }
 
 // updatePlaceholderMap matches the placeholder of a value to its column and records this into the mapping.
@@ -625,17 +649,24 @@ func (encryptor *QueryDataEncryptor) updatePlaceholderMap(valuesCount int, place
 // using the placeholder mapping which specifies the column which each value is mapped onto.
 // If the database schema says that a column needs encryption, corresponding value is encrypted.
 func (encryptor *QueryDataEncryptor) encryptValuesWithPlaceholders(ctx context.Context, values []decryptor.BoundValue, placeholders map[int]string, schema config.TableSchema) ([]decryptor.BoundValue, bool, error) {
+	settings := make(map[int]config.ColumnEncryptionSetting, len(placeholders))
+	for valueIndex, columnName := range placeholders {
+		if schema.NeedToEncrypt(columnName) {
+			settings[valueIndex] = schema.GetColumnEncryptionSettings(columnName)
+		}
+	}
+	return encryptor.encryptValuesWithSettings(ctx, values, settings)
+}
+
+// encryptValuesWithSettings encrypts the "values" of prepared statement parameters for which a column setting is given.
+func (encryptor *QueryDataEncryptor) encryptValuesWithSettings(ctx context.Context, values []decryptor.BoundValue, settings map[int]config.ColumnEncryptionSetting) ([]decryptor.BoundValue, bool, error) {
 	changed := false
 	oldValues := make([]decryptor.BoundValue, len(values))
 	for index, value := range values {
 		oldValues[index] = value.Copy()
 	}
 
-	for valueIndex, columnName := range placeholders {
-		if !schema.NeedToEncrypt(columnName) {
-			continue
-		}
-
+	for valueIndex, setting := range settings {
 		// Allocate the result slice only if there are some values that need encryption.
 		// Otherwise we'll just return the original old one.
 		if !changed {
@@ -643,7 +674,6 @@ func (encryptor *QueryDataEncryptor) encryptValuesWithPlaceholders(ctx context.C
 			copy(values, oldValues)
 		}
 		changed = true
-		setting := schema.GetColumnEncryptionSettings(columnName)
 		valueData, err := values[valueIndex].GetData(setting)
 		if err != nil {
 			return nil, false, err
@@ -653,14 +683,14 @@ func (encryptor *QueryDataEncryptor) encryptValuesWithPlaceholders(ctx context.C
 		}
 		encryptedData, err := encryptor.encryptWithColumnSettings(ctx, setting, valueData)
 		if err != nil && err != ErrUpdateLeaveDataUnchanged {
-			logrus.WithError(err).WithFields(logrus.Fields{"index": valueIndex, "column": columnName}).
+			logrus.WithError(err).WithFields(logrus.Fields{"index": valueIndex, "column": setting.ColumnName()}).
 				Debug("Failed to encrypt column")
 			return oldValues, false, err
 		}
 
 		err = values[valueIndex].SetData(encryptedData, setting)
 		if err != nil {
-			logrus.WithError(err).WithFields(logrus.Fields{"index": valueIndex, "column": columnName}).
+			logrus.WithError(err).WithFields(logrus.Fields{"index": valueIndex, "column": setting.ColumnName()}).
 				Debug("Failed to set encrypted value")
 			return nil, false, err
 		}
